@@ -60,6 +60,19 @@ def int_to_str(x):
     return mkstr(els)
 
 
+def hex_str(h):
+    """lower-case hex text of a (symbolic) byte string, as bytes.hex() returns it"""
+    out = []
+    for e in to_els(h.src):
+        if isinstance(e, int):
+            out += [ord(c) for c in '%02x' % e]
+            continue
+        hi, lo = z3.ZeroExt(CW - 4, z3.Extract(7, 4, e)), z3.ZeroExt(CW - 4, z3.Extract(3, 0, e))
+        hx = lambda n: z3.If(z3.ULT(n, 10), n + 48, n + 87)
+        out += [hx(hi), hx(lo)]
+    return mkstr(out)
+
+
 def z_str(x='', *a):
     if a:
         if isinstance(x, SBytes):
@@ -69,6 +82,8 @@ def z_str(x='', *a):
         return x
     if isinstance(x, (SInt, SBool)):
         return int_to_str(x)
+    if isinstance(x, SHex):
+        return hex_str(x)
     if isinstance(x, PROXY_TYPES):
         raise ZXError('str() of %s' % type(x).__name__)
     u = _user_str(x)
